@@ -87,6 +87,10 @@ func handleSASL(c *Client, e Event) {
 		return
 	}
 
+	if c.Config.SASL == nil {
+		return
+	}
+
 	// Assume they want us to handle sending auth.
 	auth := c.Config.SASL.Encode(e.Params)
 
